@@ -66,17 +66,34 @@ class ModelProc:
         return parse_line(self.ask_raw(" ".join(toks)))
 
     def batch(self, lines):
-        """send many lines, read many answers (pipelined in chunks to avoid pipe deadlock)."""
+        """send many lines, read many answers; a reader thread drains stdout so neither pipe can
+        fill up and deadlock, whatever the line sizes."""
+        import threading
         out = []
-        CH = 200
-        for i in range(0, len(lines), CH):
-            chunk = lines[i:i + CH]
-            self.p.stdin.write(("\n".join(chunk) + "\n").encode("ascii"))
-            for _ in chunk:
-                o = self.p.stdout.readline()
-                if not o:
-                    raise RuntimeError("modelrun died in batch")
-                out.append(o.decode("ascii").rstrip("\n"))
+        err = []
+
+        def reader():
+            try:
+                for _ in lines:
+                    o = self.p.stdout.readline()
+                    if not o:
+                        err.append("modelrun died in batch")
+                        return
+                    out.append(o.decode("ascii").rstrip("\n"))
+            except Exception as e:  # pragma: no cover
+                err.append(repr(e))
+
+        th = threading.Thread(target=reader, daemon=True)
+        th.start()
+        try:
+            CH = 500
+            for i in range(0, len(lines), CH):
+                self.p.stdin.write(("\n".join(lines[i:i + CH]) + "\n").encode("ascii"))
+        except BrokenPipeError:
+            err.append("modelrun closed its input in batch")
+        th.join()
+        if err or len(out) != len(lines):
+            raise RuntimeError(err[0] if err else "modelrun answered fewer lines than asked")
         self.n += len(lines)
         return out
 
